@@ -384,3 +384,85 @@ Definition format_bibliography_names (d : db) (cits : list str) (minx : Z) (role
   let '(es, miss) := py_entries d cs in
   do os <- mapM (fun e => do vs <- mapM (names_var e) roles; Ok (e_key e, vs)) es;
   Ok (errs ++ miss, os).
+
+(* ======================================================================================
+   Histories on LIVE objects: look-ups interleaved with edits of the same Entry /
+   BibliographyData objects.  The code keeps no state besides the dictionaries themselves
+   (no cache), so an edit is an edit of the graph and a look-up is a function of the graph
+   as it is at that moment.
+   ====================================================================================== *)
+
+(* CaseInsensitiveDict.__setitem__ (utils.py:153-157): existing key: value and spelling replaced
+   in place; new key: appended *)
+Fixpoint ci_set {V} (d : list (str * V)) (k : str) (v : V) : list (str * V) :=
+  match d with
+  | [] => [(k, v)]
+  | (k', v') :: r => if str_eqb (lower k') (lower k) then (k, v) :: r else (k', v') :: ci_set r k v
+  end.
+
+(* CaseInsensitiveDict.__delitem__ (162-165); the harness only deletes a key that is there *)
+Fixpoint ci_del {V} (d : list (str * V)) (k : str) : list (str * V) :=
+  match d with
+  | [] => []
+  | (k', v') :: r => if str_eqb (lower k') (lower k) then r else (k', v') :: ci_del r k
+  end.
+
+Inductive hop :=
+| HLookup (key field : str)                     (* bd.entries[key]._find_field(field, bd) / Field.value / field() *)
+| HSetField (key field value : str)             (* bd.entries[key].fields[field] = value   (field may be crossref) *)
+| HDelField (key field : str)                   (* del bd.entries[key].fields[field] *)
+| HReplace (key : str) (newid : nat) (title : str)   (* bd.entries[key] = Entry('misc', {'title': title}): a new object *)
+| HNewDb.                                       (* bd = BibliographyData(list(bd.entries.items())): same objects *)
+
+(* an edit of an Entry object is seen under every key that holds this object *)
+Definition update_object (d : db) (id : nat) (f : entry -> entry) : db :=
+  map (fun ke : str * entry => if Nat.eqb (e_id (snd ke)) id then (fst ke, f (snd ke)) else ke) d.
+
+Definition s_title : str := [116; 105; 116; 108; 101]%N.   (* "title" *)
+
+(* the graph after one operation; an operation on a key that is not in the database is skipped
+   (so is deleting a field that is not there) *)
+Definition apply_hop (d : db) (op : hop) : db :=
+  match op with
+  | HLookup _ _ => d
+  | HSetField k f v =>
+    match ci_get d k with
+    | Some e => update_object d (e_id e) (fun x => mkEntry (e_id x) (e_key x) (ci_set (e_fields x) f v) (e_persons x))
+    | None => d
+    end
+  | HDelField k f =>
+    match ci_get d k with
+    | Some e => match ci_get (e_fields e) f with
+                | Some _ => update_object d (e_id e) (fun x => mkEntry (e_id x) (e_key x) (ci_del (e_fields x) f) (e_persons x))
+                | None => d
+                end
+    | None => d
+    end
+  | HReplace k newid t =>
+    match ci_get d k with
+    | Some _ => ci_set d k (mkEntry newid [] [(s_title, t)] [])
+    | None => d
+    end
+  | HNewDb => d      (* add_entry re-assigns entry.key = key: same keys, same objects, same order *)
+  end.
+
+(* the answer to a look-up in the graph as it is now (None for a key that is not there) *)
+Definition lookup_now (d : db) (k f : str) : option lookup :=
+  match ci_get d k with
+  | Some e => Some (entry_find_field (Some d) e f)
+  | None => None
+  end.
+
+(* the look-up results of a history, in order *)
+Fixpoint run_history (d : db) (ops : list hop) : list (option lookup) :=
+  match ops with
+  | [] => []
+  | HLookup k f :: r => lookup_now d k f :: run_history d r
+  | op :: r => run_history (apply_hop d op) r
+  end.
+
+Fixpoint graph_after (d : db) (ops : list hop) : db :=
+  match ops with
+  | [] => d
+  | op :: r => graph_after (apply_hop d op) r
+  end.
